@@ -26,6 +26,7 @@ impl App for Collector {
 #[derive(Clone, Debug)]
 pub struct Arrived {
     pub parts: Vec<Vec<u8>>,
+    #[allow(dead_code)]
     pub at: u64,
 }
 
